@@ -923,7 +923,16 @@ impl<A: Subject> Runner<A> {
   }
 
   fn check_readers(&self, v: &mut Vec<Viol>) {
-    let a = self.a;
+    for m in readers_bad(self.a).into_iter().take(2) {
+      v.push(Viol { flag: O_READERS, class: "reader-bounds".into(), msg: m });
+    }
+  }
+}
+
+/// C15 on one arena state: cursor within [data_offset, capacity], slice lengths, readers around the cursor and the
+/// capacity against the bytes of memory()
+pub fn readers_bad<A: Subject>(a: &A) -> Vec<String> {
+  {
     let (al, cap, dof) = (a.allocated(), a.capacity(), a.data_offset());
     let mut bad = vec![];
     if al > cap || al < dof {
@@ -982,11 +991,11 @@ impl<A: Subject> Runner<A> {
         }
       }
     }
-    for m in bad.into_iter().take(2) {
-      v.push(Viol { flag: O_READERS, class: "reader-bounds".into(), msg: m });
-    }
+    bad
   }
+}
 
+impl<A: Subject> Runner<A> {
   fn do_alloc(&mut self, op: Op, or: u32, v: &mut Vec<Viol>) -> Obs {
     let a = self.a;
     let pre = a.snap(64);
@@ -1364,6 +1373,11 @@ impl<A: Subject> Runner<A> {
         }
         if or & O_RELEASE != 0 && newn.len() > 1 {
           v.push(Viol { flag: O_RELEASE, class: "released-twice".into(), msg: format!("{}: {} new segments", op.short(), newn.len()) });
+        }
+        // "once": what one release adds to discarded() is at most what the handle owned (all of it when nothing is
+        // listed, the node overhead when a segment is)
+        if or & O_RELEASE != 0 && post.discarded.wrapping_sub(pre.discarded) as usize > bcap {
+          v.push(Viol { flag: O_RELEASE, class: "released-more-than-owned".into(), msg: format!("{}: the release of [{},{}) ({} bytes) raised discarded() by {}", op.short(), boff, boff + bcap, bcap, post.discarded.wrapping_sub(pre.discarded)) });
         }
         if newn.is_empty() {
           // not reusable: accounted as discarded, never handed out again
